@@ -16,6 +16,12 @@ Case families (each case is a small dict = the replay file):
   bee-img        BeeNxp.export_image + export_headers, FAC ranges assigned to engine 0/1
   *-nxp          check_config + OtfadNxp/IeeNxp/BeeNxp.load_from_config + binary_image()/export_image()/
                  export_headers() (= what `nxpimage otfad|iee|bee export` runs), every supported family
+  calls          call-order histories on ONE API object (BeeRegionHeader in BeeNxp, Otfad, Iee): every sequence over
+                 {add region, export header/table, encrypt image} up to length 5 (6 thorough) in which regions are added
+                 AFTER a first export; every result must equal that of a fresh object holding the same regions
+  seg            data blobs with 2-3 disjoint segments: S19 / HEX files through IeeNxp.load_from_config, nested
+                 BinaryImage trees through the IeeNxp / OtfadNxp constructors; each segment is read back at its own
+                 address and must equal encrypting the piece alone at its address
 
 Clauses (evaluated independently on every case):
   C13.<eng>-read        hw_read(exported, addr) == plaintext on every byte of the image: deciphered inside the
@@ -1841,11 +1847,384 @@ def bee_nxp_cases(ctx: core.Ctx) -> list[dict]:
 
 
 # ---------------------------------------------------------------------------------------------
+# call-order histories on the API objects: regions / key blobs added AFTER a first export.
+# Alphabet: A = add the next region (FAC / key blob), H = export header / key-blob table, I = encrypt / export image.
+# Oracle: every H and I result equals that of a FRESH object that received the same regions first (same listing
+# order) and then did only this one call; the last image after all regions are in also passes the hardware read clause.
+
+D_CALLS_IMG = "image-differs-from-a-fresh-object-holding-the-same-regions"
+D_CALLS_HDR = "header-or-table-differs-from-a-fresh-object-holding-the-same-regions"
+D_CALLS_REF = "call-refused-or-accepted-unlike-a-fresh-object-holding-the-same-regions"
+
+
+def call_sequences(n_regions: int = 2, max_len: int = 5) -> list[str]:
+    """Every sequence over {A, H, I} up to max_len with exactly n_regions A's, at least one export (H or I)
+    before the last A and at least one export after it."""
+    out = []
+    for n in range(n_regions + 2, max_len + 1):
+        for t in itertools.product("AHI", repeat=n):
+            q = "".join(t)
+            if q.count("A") != n_regions or q[-1] == "A":
+                continue
+            last = q.rindex("A")
+            if not any(ch in "HI" for ch in q[:last]):
+                continue
+            out.append(q)
+    return out
+
+
+def run_calls(eng: str, seq: str, make: Any, n_regions: int, L: int) -> tuple[list, Any, dict]:
+    """make(k) -> (add(i), hdr(), img()) closures on a new object that already holds the first k regions.
+    Returns (violations, last image produced after all regions were added or None, counters)."""
+    from spsdk.exceptions import SPSDKError
+
+    def attempt(fn: Any) -> tuple:
+        try:
+            return ("ok", fn())
+        except SPSDKError as e:
+            return ("rej", str(e)[:60])
+
+    viol: list = []
+    cnt: dict = {}
+    add, hdr, img = make(0)
+    added = 0
+    final_img = None
+    for pos, op in enumerate(seq):
+        if op == "A":
+            st = attempt(lambda: add(added))
+            if st[0] == "rej":
+                cnt[f"rejected:{eng}-calls:add:{st[1][:30]}"] = 1
+                return viol, None, cnt
+            added += 1
+            continue
+        _, fh, fi = make(added)
+        got, exp = attempt(hdr if op == "H" else img), attempt(fh if op == "H" else fi)
+        where = f"step {pos} ({op}) of {seq!r} with {added} region(s)"
+        if got[0] != exp[0]:
+            viol.append((f"C13.{eng}-history", D_CALLS_REF, f"{where}: {got[0]} {got[1] if got[0] == 'rej' else ''} / fresh object: {exp[0]}"))
+            continue
+        if got[0] == "rej":
+            cnt[f"{eng}_calls_step_refused_like_fresh"] = cnt.get(f"{eng}_calls_step_refused_like_fresh", 0) + 1
+            continue
+        if op == "H":
+            if got[1] != exp[1]:
+                viol.append((f"C13.{eng}-history", D_CALLS_HDR, where))
+        else:
+            a, b = got[1], exp[1]
+            if a[:L] != b[:L] or len(a) != len(b):
+                viol.append((f"C13.{eng}-history", D_CALLS_IMG, f"{where}: first difference at offset {first_diff_block(a, b, L)}"))
+            if added == n_regions:
+                final_img = a
+    return viol, final_img, cnt
+
+
+def w_bee_calls(case: dict) -> dict:
+    """One BeeRegionHeader inside one BeeNxp: add_fac / export_headers / export_image in every order."""
+    _quiet()
+    from spsdk.image.bee import BeeFacRegion, BeeKIB, BeeNxp, BeeProtectRegionBlock, BeeRegionHeader
+
+    from vf.ref import bee_hw as hwm
+
+    seed, L = case["seed"], case["L"]
+    own_rng(seed)
+    a0, base = bee_geom(case)
+    img = core.seeded_bytes(seed, f"img{L}", L)
+    cfg = bee_cfg(hwm, case, a0)
+    e = next(x for x in cfg if x is not None)  # all FACs of a case sit on one engine
+
+    def make(k: int) -> tuple:
+        hdr = BeeRegionHeader(BeeProtectRegionBlock(counter=e.nonce, lock_options=e.lock_options), e.user_key, BeeKIB(e.kib_key, e.kib_iv))
+        for f in e.facs[:k]:
+            hdr.add_fac(BeeFacRegion(f.start, f.end - f.start, f.level))
+        slots: list = [None, None]
+        slots[e.index] = hdr
+        bee = BeeNxp(slots, img, base)
+        return (lambda i: hdr.add_fac(BeeFacRegion(e.facs[i].start, e.facs[i].end - e.facs[i].start, e.facs[i].level)),
+                lambda: bee.export_headers()[e.index], bee.export_image)
+
+    cnt: dict = {"bee_calls": 1, "nontrivial": 1}
+    try:
+        viol, final_img, c2 = run_calls("bee", case["seq"], make, len(e.facs), L)
+    except Exception as ex:  # noqa
+        return {"viol": [("C13.bee-crash", exc_site(ex) + ",call-order", f"{type(ex).__name__}: {ex}; seq {case['seq']}")], "count": cnt}
+    cnt.update(c2)
+    if final_img is not None:
+        viol += bee_judge_image(hwm, cfg, img, base, final_img, None, (), cnt)
+    return {"viol": core.dedupe(viol), "count": cnt}
+
+
+def w_otfad_calls(case: dict) -> dict:
+    """One Otfad object: add_key_blob / encrypt_key_blobs + get_key_blobs / encrypt_image in every order."""
+    _quiet()
+    from spsdk.utils.crypto.otfad import KeyBlob, Otfad
+
+    from vf.ref import otfad_hw as hwm
+
+    seed, L, endc = case["seed"], case["L"], case["endc"]
+    a0, base = otfad_geom(case)
+    img = core.seeded_bytes(seed, f"img{L}", L)
+    kek = pat(seed, "kek", 16)
+    cfg = otfad_cfg(hwm, case, a0)
+
+    def blob(c: Any) -> Any:
+        return KeyBlob(c.first, c.last + endc, key=c.key, counter_iv=c.ctr, key_flags=c.flags, zero_fill=bytes(4))
+
+    def make(k: int) -> tuple:
+        o = Otfad()
+        for c in cfg[:k]:
+            o.add_key_blob(blob(c))
+        return (lambda i: o.add_key_blob(blob(cfg[i])), lambda: o.encrypt_key_blobs(kek) + o.get_key_blobs(),
+                lambda: o.encrypt_image(img, base, False))
+
+    cnt: dict = {"otfad_calls": 1, "nontrivial": 1}
+    try:
+        viol, final_img, c2 = run_calls("otfad", case["seq"], make, len(cfg), L)
+    except Exception as ex:  # noqa
+        return {"viol": [("C13.otfad-crash", exc_site(ex) + ",call-order", f"{type(ex).__name__}: {ex}; seq {case['seq']}")], "count": cnt}
+    cnt.update(c2)
+    if final_img is not None:
+        viol += otfad_judge_image(hwm, cfg, False, endc, img, base, final_img, None, (), cnt)
+    return {"viol": core.dedupe(viol), "count": cnt}
+
+
+def w_iee_calls(case: dict) -> dict:
+    """One Iee object: add_key_blob / get_key_blobs + encrypt_key_blobs / encrypt_image in every order."""
+    _quiet()
+    from vf.ref import iee_hw as hwm
+
+    seed, L = case["seed"], case["L"]
+    a0 = IEE_WIN[case["win"]]
+    img = core.seeded_bytes(seed, f"img{L}", L)
+    modes = iee_modes(case)
+    cfg = iee_cfg(hwm, case, a0)
+    k1, k2 = pat(seed, "ibkek1", 32), pat(seed, "ibkek2", 32)
+
+    def make(k: int) -> tuple:
+        o = iee_build(cfg[:k], modes[:k])
+        return (lambda i: o.add_key_blob(iee_build([cfg[i]], [modes[i]])[0]),
+                lambda: o.get_key_blobs() + o.encrypt_key_blobs(k1, k2, 0x30000000), lambda: o.encrypt_image(img, a0))
+
+    cnt: dict = {"iee_calls": 1, "nontrivial": 1}
+    try:
+        viol, final_img, c2 = run_calls("iee", case["seq"], make, len(cfg), L)
+    except Exception as ex:  # noqa
+        return {"viol": [("C13.iee-crash", exc_site(ex) + ",call-order", f"{type(ex).__name__}: {ex}; seq {case['seq']}")], "count": cnt}
+    cnt.update(c2)
+    if final_img is not None:
+        viol += iee_judge_image(hwm, cfg, modes, img, a0, final_img, None, (), cnt)
+    return {"viol": core.dedupe(viol), "count": cnt}
+
+
+def calls_cases(ctx: core.Ctx) -> list[dict]:
+    """Representatives, not products: two region layouts (adjacent, gapped) x both listing orders x every call sequence."""
+    thorough = ctx.tier == "thorough"
+    seqs = call_sequences(2, 5) + (call_sequences(3, 6) if thorough else [q for q in call_sequences(3, 5)])
+    cases = []
+    for q in seqs:
+        k = q.count("A")
+        lays = [[(0, 1), (1, 2)], [(0, 1), (2, 4)]] if k == 2 else [[(0, 1), (1, 2), (3, 4)]]
+        for lay in lays:
+            for perm in [None] + (perms_of(k) if (thorough or k == 2) else perms_of(k)[:2]):
+                extra = {"perm": perm} if perm else {}
+                for eng in ((0, 1) if thorough else (0,)):
+                    cases.append(dict({"e": "bee-calls", "seed": ctx.seed, "seq": q, "L": 4097, "off": 16, "win": "mid",
+                                       "facs": [[i, j, eng, idx % 4] for idx, (i, j) in enumerate(lay)]}, **extra))
+                cases.append(dict({"e": "otfad-calls", "seed": ctx.seed, "seq": q, "L": 4097, "off": 16, "win": "mid", "endc": 0,
+                                   "regs": [[i, j, 3] for i, j in lay]}, **extra))
+                ms = [("XTS", 256), ("CTRA", 128), ("XTS", 128)]
+                cases.append(dict({"e": "iee-calls", "seed": ctx.seed, "seq": q, "L": 4 * U_IEE + 1, "win": "mid", "k2": "low0",
+                                   "regs": [[i, j, *ms[idx]] for idx, (i, j) in enumerate(lay)]}, **extra))
+    return cases
+
+
+def w_calls(case: dict) -> dict:
+    return {"bee-calls": w_bee_calls, "otfad-calls": w_otfad_calls, "iee-calls": w_iee_calls}[case["e"]](case)
+
+
+# ---------------------------------------------------------------------------------------------
+# multi-segment data inputs: a data blob given as S19 / HEX file with 2-3 disjoint segments (IeeNxp.load_from_config,
+# address omitted: the file carries the addresses) and nested BinaryImage trees handed to IeeNxp / OtfadNxp through
+# the API (blob -> segments).  Oracle as usual: the hardware model reads every segment back at its own address, and the
+# export of a segment equals encrypting that piece alone at its address.  (BEE has no segment notion: BeeNxp takes
+# one flat input image; OtfadNxp.load_from_config reads a data blob as raw bytes, so OTFAD segments exist at API level only.)
+
+
+def seg_file(path: str, fmt: str, segs: list) -> None:
+    """Write the input file (bincopy is used to *write* the test input only)."""
+    import bincopy
+
+    bf = bincopy.BinFile()
+    for addr, data in segs:
+        bf.add_binary(data, address=addr)
+    with open(path, "w", encoding="ascii") as f:
+        f.write(bf.as_srec(address_length_bits=32) if fmt == "s19" else bf.as_ihex())
+
+
+def seg_tree(name: str, segs: list, rel_base: int) -> Any:
+    """blob image (offset = first segment - rel_base) holding one sub-image per segment, like a loaded file."""
+    from spsdk.utils.images import BinaryImage
+
+    first = min(a for a, _ in segs)
+    blob = BinaryImage(name, offset=first - rel_base)
+    for i, (a, d) in enumerate(segs):
+        blob.add_image(BinaryImage(f"Segment {i}", offset=a - first, binary=d, parent=blob))
+    return blob
+
+
+def w_iee_seg(case: dict) -> dict:
+    _quiet()
+    from spsdk.exceptions import SPSDKError
+    from spsdk.utils.crypto.iee import IeeNxp
+    from spsdk.utils.images import BinaryImage
+    from spsdk.utils.schema_validator import check_config
+
+    from vf.ref import iee_hw as hwm
+
+    seed, fam, fmt = case["seed"], case["fam"], case["fmt"]
+    own_rng(seed)
+    ka, a0 = 0x30000000, 0x30002000
+    td = workdir()
+    modes = iee_modes(case)
+    cfg = iee_cfg(hwm, case, a0)
+    k1, k2 = pat(seed, "ibkek1", 32), pat(seed, "ibkek2", 32)
+    segs = [(a0 + uoff * U_IEE, core.seeded_bytes(seed, f"seg{i}-{L}", L)) for i, (uoff, L) in enumerate(case["segs"])]
+    cnt: dict = {"iee_seg": 1}
+    viol: list = []
+    try:
+        if fmt == "api":
+            start = min([c.start for c in cfg] + [a for a, _ in segs])
+            binaries = BinaryImage("encrypted_blobs", offset=start - ka, alignment=16)
+            binaries.add_image(seg_tree("blob0", segs, ka + binaries.offset))
+            o = IeeNxp(fam, ka, k1, k2, key_blobs=list(iee_build(cfg, modes)._key_blobs), binaries=binaries)
+        else:
+            path = os.path.join(td, f"segs.{fmt}")
+            seg_file(path, fmt, segs)
+            kbs = []
+            for c, (m, ks) in zip(cfg, modes):
+                k1n, k2n = iee_key_lengths(m, ks)
+                kbs.append({"region_lock": False, "aes_mode": IEE_MODE_LABEL[m], "key_size": IEE_KS[ks][1], "page_offset": 0,
+                            "key1": hx(c.key1[:k1n]), "key2": hx(c.key2[:k2n]), "start_address": hex(c.start), "end_address": hex(c.end)})
+            conf: dict = {"family": fam, "output_folder": os.path.join(td, "out"), "keyblob_address": hex(ka),
+                          "data_blobs": [{"data": path}]}
+            if IEE_FAM[fam]:
+                conf.update({"ibkek1": hx(k1), "ibkek2": hx(k2), "key_blobs": kbs})
+            else:
+                conf["key_blob"] = kbs[0]
+            check_config(conf, IeeNxp.get_validation_schemas(fam), search_paths=[td])
+            o = IeeNxp.load_from_config(conf, td, [td])
+        data = o.binary_image().export()
+    except SPSDKError as e:
+        return {"viol": [], "count": {"iee_seg_rejected": 1, f"rejected:iee-seg:{str(e)[:40]}": 1}}
+    except Exception as e:  # noqa
+        return {"viol": [("C13.iee-crash", exc_site(e) + ",multi-segment-input", f"{type(e).__name__}: {e}")], "count": cnt}
+    for i, (addr, img) in enumerate(segs):
+        lo = addr - ka
+        enc = data[lo: lo + -(-len(img) // 16) * 16]
+        viol += [(c, d + ",segment-of-a-multi-segment-blob" if i else d, t + f" [segment {i} of {fmt} input]")
+                 for c, d, t in iee_judge_image(hwm, cfg, modes, img, addr, enc, None, (), cnt)]
+        try:  # the export of the segment equals encrypting this piece alone at its address
+            alone = o.encrypt_image(img, addr)
+            if alone[:len(img)] != enc[:len(img)]:
+                viol.append(("C13.iee-locality", "segment-export-differs-from-encrypting-the-piece-alone-at-its-address",
+                             f"segment {i} at {addr:#x} ({len(img)} bytes) of a {fmt} input with {len(segs)} segments"))
+        except SPSDKError:
+            cnt["iee_piece_rejected"] = 1
+        except Exception as e:  # noqa
+            viol.append(("C13.iee-crash", exc_site(e) + ",piece", f"{type(e).__name__}: {e}"))
+    if any(c.start < a + len(d) and c.end > a for c in cfg for a, d in segs):
+        cnt["nontrivial"] = 1
+    return {"viol": core.dedupe(viol), "count": cnt}
+
+
+def w_otfad_seg(case: dict) -> dict:
+    _quiet()
+    from spsdk.exceptions import SPSDKError
+    from spsdk.utils.crypto.otfad import KeyBlob, OtfadNxp
+    from spsdk.utils.images import BinaryImage
+
+    from vf.ref import otfad_hw as hwm
+
+    seed, fam, endc = case["seed"], case["fam"], case["endc"]
+    own_rng(seed)
+    swap_cnt, rev, _ = OTFAD_FAM[fam]
+    ta, a0 = 0x08000000, 0x08001000
+    kek = pat(seed, "kek", 16)
+    cfg = otfad_cfg(hwm, case, a0)
+    segs = [(a0 + off, core.seeded_bytes(seed, f"seg{i}-{L}", L)) for i, (off, L) in enumerate(case["segs"])]
+    cnt: dict = {"otfad_seg": 1}
+    viol: list = []
+    try:
+        start = min([c.first for c in cfg] + [a for a, _ in segs])
+        binaries = BinaryImage("encrypted_blobs", offset=start - ta)
+        binaries.add_image(seg_tree("blob0", segs, ta + binaries.offset))
+        o = OtfadNxp(fam, kek, table_address=ta, binaries=binaries,
+                     key_blobs=[KeyBlob(c.first, c.last + endc, key=c.key, counter_iv=c.ctr, key_flags=c.flags, zero_fill=bytes(4))
+                                for c in cfg])
+        data = o.binary_image().export()
+    except SPSDKError as e:
+        return {"viol": [], "count": {"otfad_seg_rejected": 1, f"rejected:otfad-seg:{str(e)[:40]}": 1}}
+    except Exception as e:  # noqa
+        return {"viol": [("C13.otfad-crash", exc_site(e) + ",multi-segment-input", f"{type(e).__name__}: {e}")], "count": cnt}
+    viol += otfad_table_judge(hwm, data[:256], cfg, kek, swap_cnt, None, None, rev, records=max(4, len(cfg)))
+    for i, (addr, img) in enumerate(segs):
+        lo = addr - ta
+        enc = data[lo: lo + -(-len(img) // 16) * 16]
+        viol += [(c, d + ",segment-of-a-multi-segment-blob" if i else d, t + f" [segment {i}]")
+                 for c, d, t in otfad_judge_image(hwm, cfg, False, endc, img, addr, enc, None, (), cnt, walk_len=-(-len(img) // 16) * 16)]
+        try:
+            alone = o.encrypt_image(img + bytes(-len(img) % 16), addr, False)
+            if alone[:len(img)] != enc[:len(img)]:
+                viol.append(("C13.otfad-locality", "segment-export-differs-from-encrypting-the-piece-alone-at-its-address",
+                             f"segment {i} at {addr:#x} ({len(img)} bytes) of {len(segs)} segments"))
+        except SPSDKError:
+            cnt["otfad_piece_rejected"] = 1
+        except Exception as e:  # noqa
+            viol.append(("C13.otfad-crash", exc_site(e) + ",piece", f"{type(e).__name__}: {e}"))
+    if any(c.valid and c.first < a + len(d) and c.last >= a for c in cfg for a, d in segs):
+        cnt["nontrivial"] = 1
+    return {"viol": core.dedupe(viol), "count": cnt}
+
+
+def seg_cases(ctx: core.Ctx) -> list[dict]:
+    """Representatives: 2 and 3 disjoint segments (gaps of whole units) x input form x a few region layouts x modes."""
+    thorough = ctx.tier == "thorough"
+    cases = []
+    # IEE: segments in 4 KiB units relative to the first one
+    iee_segsets = [[[0, 4096], [2, 2048]], [[0, 17], [1, 4097], [4, 1024]], [[0, 8192], [3, 16]]]
+    iee_lays = [((0, 6),), ((0, 2), (2, 6)), ((0, 1), (3, 6)), ((-1, 3),)]
+    for fmt in ("s19", "hex", "api"):
+        for segs in iee_segsets:
+            for lay in iee_lays:
+                for mk in (IEE_CLAIMED if thorough else [("XTS", 256), ("CTRA", 128), ("XTS", 128), ("BYP", 128)]):
+                    ms = [mk, ("XTS", 256), ("CTRA", 256)]
+                    cases.append({"e": "iee-seg", "seed": ctx.seed, "fam": "mimxrt1176", "fmt": fmt, "segs": segs, "k2": "low0",
+                                  "regs": [[i, j, *ms[idx]] for idx, (i, j) in enumerate(lay)]})
+        cases.append({"e": "iee-seg", "seed": ctx.seed, "fam": "mimxrt1189", "fmt": fmt, "segs": iee_segsets[0], "k2": "low0",
+                      "regs": [[0, 6, "XTS", 256]]})
+    # OTFAD (API level): segment offsets in bytes from the first one, 16-byte aligned
+    otfad_segsets = [[[0, 1024], [0x800, 1025]], [[16, 17], [0x410, 2048], [0x1400, 1024]], [[0x3F0, 2048], [0x1000, 16]]]
+    otfad_lays = [((0, 8),), ((0, 2), (2, 8)), ((0, 1), (3, 8)), ((-1, 3),)]
+    for segs in otfad_segsets:
+        for lay in otfad_lays:
+            for fam in (OTFAD_REPS if thorough else OTFAD_REPS[:2]):
+                for endc in (0, 1):
+                    cases.append({"e": "otfad-seg", "seed": ctx.seed, "fam": fam, "segs": segs, "endc": endc,
+                                  "regs": [[i, j, 7] for i, j in lay]})
+    return cases
+
+
+def w_seg(case: dict) -> dict:
+    return {"iee-seg": w_iee_seg, "otfad-seg": w_otfad_seg}[case["e"]](case)
+
+
+# ---------------------------------------------------------------------------------------------
 
 WORKERS = {"otfad-img": w_otfad_img, "otfad-kb": w_otfad_kb, "otfad-blobapi": w_otfad_blobapi, "iee-blobapi": w_iee_blobapi, "iee-img": w_iee_img, "iee-kb": w_iee_kb, "bee-img": w_bee_img,
-           "otfad-nxp": w_otfad_nxp, "iee-nxp": w_iee_nxp, "bee-nxp": w_bee_nxp}
+           "otfad-nxp": w_otfad_nxp, "iee-nxp": w_iee_nxp, "bee-nxp": w_bee_nxp,
+           "calls": w_calls, "bee-calls": w_bee_calls, "otfad-calls": w_otfad_calls, "iee-calls": w_iee_calls,
+           "seg": w_seg, "iee-seg": w_iee_seg, "otfad-seg": w_otfad_seg}
 # cheap families first, so that a run cut by its budget loses only the tail of the large-image cases
-PLAN = [("otfad-blobapi", otfad_blobapi_cases), ("iee-blobapi", iee_blobapi_cases), ("iee-kb", iee_kb_cases), ("otfad-nxp", otfad_nxp_cases),
+PLAN = [("calls", calls_cases), ("seg", seg_cases), ("otfad-blobapi", otfad_blobapi_cases), ("iee-blobapi", iee_blobapi_cases), ("iee-kb", iee_kb_cases), ("otfad-nxp", otfad_nxp_cases),
         ("iee-nxp", iee_nxp_cases), ("bee-nxp", bee_nxp_cases), ("otfad-kb", otfad_kb_cases), ("bee-img", bee_img_cases),
         ("iee-img", iee_img_cases), ("otfad-img", otfad_img_cases)]
 
@@ -1878,7 +2257,8 @@ def run(ctx: core.Ctx) -> None:
     c = ctx.counters
     if not only:
         # base cases must be accepted: a family in which nothing was executed to the end is a harness error
-        for key in ("otfad_img", "otfad_kb", "otfad_blobapi", "iee_blobapi", "iee_img", "iee_kb", "bee_img", "otfad_nxp", "iee_nxp", "bee_nxp"):
+        for key in ("otfad_img", "otfad_kb", "otfad_blobapi", "iee_blobapi", "iee_img", "iee_kb", "bee_img", "otfad_nxp", "iee_nxp", "bee_nxp",
+                    "bee_calls", "otfad_calls", "iee_calls", "iee_seg", "otfad_seg"):
             if c.get(key, 0) == 0 and ctx.exhaustive:
                 raise core.HarnessError(f"no accepted case in family {key}")
     ctx.cov["distinct_nontrivial"] = c.get("nontrivial", 0)
